@@ -31,6 +31,7 @@ func c06(w *core.World, r *core.Report) {
 	r.Rule("R06.4", "reader start / writer offset / snapshot size definitions on every successful path of syncMeta", 2)
 	r.Rule("R06.6", "one id for cache and bookkeeping; CONTINUE keeps the source's current id", 2)
 	r.Rule("R06.10", "a full resynchronisation does not carry the target's old position over to the new replication id", 2)
+	r.Rule("R06.14", "a granted continuation keeps the position the target holds: the output is told to drop it only on a full resynchronisation", 1)
 	ruleSyncMetaPaths(w, r)
 
 	r.Rule("R06.5", "the values syncMeta returns reach the writer and the reader unchanged", 2)
@@ -54,6 +55,8 @@ func c06(w *core.World, r *core.Report) {
 	r.Rule("R08.2", "the cache the decision procedure consults reports only completed snapshots after a restart (scan conditions, shared with C08)", 3)
 	ruleScan(w, r)
 
+	r.Rule("R06.12", "", 0)
+	ruleHolderLookupFailureSurfaces(w, r)
 }
 
 func rulePsyncWire(w *core.World, r *core.Report) {
@@ -261,7 +264,7 @@ func ruleSyncMetaPaths(w *core.World, r *core.Report) {
 		pos token.Pos
 		n   int
 	}
-	v := map[string]*verdict{"psync-argument": {}, "cache-cleared": {}, "full-definitions": {}, "partial-definitions": {}, "one-id": {}, "continue-id": {}, "position-dropped": {}}
+	v := map[string]*verdict{"psync-argument": {}, "cache-cleared": {}, "full-definitions": {}, "partial-definitions": {}, "one-id": {}, "continue-id": {}, "position-dropped": {}, "position-kept": {}}
 	dropMethods := map[string]bool{}
 	fail := func(k, msg string, pos token.Pos) {
 		if v[k].bad == "" {
@@ -412,6 +415,25 @@ func ruleSyncMetaPaths(w *core.World, r *core.Report) {
 				fail("position-dropped", "on a full resynchronisation the output is re-keyed to the new replication id without first being told to drop the position it holds: re-keying copies the old offset to the new id, and until the snapshot has been replayed a restart asks the source to continue the new history from that foreign offset", ret.Pos())
 			}
 		}
+		// the converse: a granted continuation keeps the position the target holds — whatever happens to the
+		// local cache. The 'none yet' marker is moved to the new id like any other position, and a stop before
+		// the replay's first checkpoint makes the next start ask for everything again (or, with the marker under
+		// the current id, lose the live position outright)
+		if !full && !notProduction {
+			v["position-kept"].n++
+			for _, s := range sites {
+				if !s.Common().IsInvoke() || s.Method == "StartPoint" || s.Method == "SetRunId" {
+					continue
+				}
+				recv := core.Unwrap(p.Resolve(s.Common().Value))
+				if ex, isEx := recv.(*ssa.Extract); isEx {
+					recv = ex.Tuple
+				}
+				if ta, isTA := recv.(*ssa.TypeAssert); isTA && fieldNameOfLoad(core.Unwrap(ta.X)) == "output" && strings.Contains(s.Method, "Drop") {
+					fail("position-kept", "the output is told to drop the position it holds on a path where the source granted a continuation: the live resume position is replaced by the 'none yet' marker although nothing replaces the history it belongs to", s.Pos())
+				}
+			}
+		}
 		// ---- final definitions
 		last := map[string]ssa.Value{}
 		for _, in := range p.Instrs {
@@ -559,6 +581,7 @@ func ruleSyncMetaPaths(w *core.World, r *core.Report) {
 	emit("R06.6", "one-id", "syncMeta/one-id")
 	emit("R06.6", "continue-id", "syncMeta/continue-keeps-current-id")
 	emit("R06.10", "position-dropped", "syncMeta/full-sync-drops-position")
+	emit("R06.14", "position-kept", "syncMeta/continuation-keeps-position")
 	// what the output does when told so: the "none yet" marker under the id it currently has
 	r.Rule("R06.10", "", 0)
 	for m := range dropMethods {
